@@ -32,8 +32,10 @@ theorem sendAll_log (s : State) (cid : Nat) : ∀ k,
     have h2 := sendGroup_log (sendAll s cid k) cid (k + 1)
     exact ⟨h2.1.trans h1.1, h2.2.trans h1.2⟩
 
-theorem InvL.flush {s : State} (hL : InvL s) : InvL (flush s) := by
-  unfold CGV.BatchMux.flush
+theorem InvL.flushBegin {s : State} (hL : InvL s) : InvL (flushBegin s) := by
+  unfold CGV.BatchMux.flushBegin
+  split
+  · exact hL
   simp only
   generalize chooseClient s.clients _ s.clients.length s.index = pk
   obtain ⟨idx, pick⟩ := pk
@@ -56,12 +58,8 @@ theorem InvL.flush {s : State} (hL : InvL s) : InvL (flush s) := by
       rcases hrel.mem it hit with h | h
       · simp at h
       · exact h.2.1
-    have hlog := sendAll_log
-      { s with index := idx, heap := hp, idAlloc := bst.idAlloc, built := bst.items.reverse,
-               allocLog := bst.items.map (fun it => (it.id, it.h)) ++ s.allocLog } cid s.nfwd
     refine ⟨?_, ?_⟩
-    · rw [hlog.1]
-      simp only [List.map_append, List.map_map, Function.comp_def]
+    · simp only [List.map_append, List.map_map, Function.comp_def]
       refine List.pairwise_append.mpr ⟨hmono, hL.mono, ?_⟩
       intro a ha b hb
       obtain ⟨it, hit, rfl⟩ := List.mem_map.mp ha
@@ -70,14 +68,23 @@ theorem InvL.flush {s : State} (hL : InvL s) : InvL (flush s) := by
       have := hmem it hit
       show it.id > p.1
       omega
-    · rw [hlog.1, hlog.2]
-      intro p hp'
+    · intro p hp'
       rcases List.mem_append.mp hp' with h | h
       · obtain ⟨it, hit, rfl⟩ := List.mem_map.mp h
         have := hmem it hit
         exact ⟨by show 0 < it.id; omega, hle it hit⟩
       · have := hL.le p h
         exact ⟨this.1, Nat.le_trans this.2 hrel.le⟩
+
+theorem InvL.flushEnd {s : State} (hL : InvL s) : InvL (flushEnd s) := by
+  unfold CGV.BatchMux.flushEnd
+  split
+  · exact hL
+  · rename_i cid _
+    have := sendAll_log s cid s.nfwd
+    exact hL.same this.1 this.2
+
+theorem InvL.flush {s : State} (hL : InvL s) : InvL (flush s) := hL.flushBegin.flushEnd
 
 theorem recvFold_log (cid : Nat) : ∀ (rs : List (Nat × Nat)) (s : State),
     (rs.foldl (recv1 cid) s).allocLog = s.allocLog ∧ (rs.foldl (recv1 cid) s).idAlloc = s.idAlloc
@@ -100,6 +107,8 @@ theorem InvL.step {s : State} (hL : InvL s) (op : Op) : InvL (step s op) := by
     exact hL.same this.1 this.2
   | breset => exact hL.same rfl rfl
   | flush => exact hL.flush
+  | flushBegin => exact hL.flushBegin
+  | flushEnd => exact hL.flushEnd
   | recv cid fwd rs =>
     have : (CGV.BatchMux.recv s cid fwd rs).allocLog = s.allocLog ∧ (CGV.BatchMux.recv s cid fwd rs).idAlloc = s.idAlloc := by
       unfold CGV.BatchMux.recv
